@@ -11,7 +11,8 @@ from tests import utils
 from native import mdibtools as mt
 
 KINDS = ('metric', 'alert', 'component', 'operational', 'context', 'location', 'rt', 'descr_update', 'descr_create',
-         'descr_delete', 'descr_recreate', 'descr_create_siblings', 'descr_delete_siblings', 'mixed_descr_and_state')
+         'descr_delete', 'descr_recreate', 'descr_create_siblings', 'descr_delete_siblings', 'mixed_descr_and_state',
+         'entity_state', 'entity_context', 'entity_descriptor', 'stale_entity')
 
 
 class History:
@@ -141,13 +142,19 @@ class History:
         d.MetricAvailability = pm_types.MetricAvailability.CONTINUOUS
         return d
 
+    def _add(self, tr, handle, parent):
+        """A new metric descriptor together with its state (a descriptor without state is not a valid MDIB)."""
+        d = self._new_descriptor(handle, parent)
+        st = self.mdib.data_model.mk_state_container(d)
+        st.ActivationState = self.rnd.choice(list(pm_types.ComponentActivation))
+        tr.add_descriptor(d, state_container=st)
+
     def do_descr_create(self):
         channels = [d.Handle for d in self.mdib.descriptions.objects if d.NODETYPE == pm.ChannelDescriptor]
         parent = self.rnd.choice(sorted(channels))
         handle = 'verif_created_%d' % self.counter
         with self.mdib.descriptor_transaction() as tr:
-            tr.add_descriptor(self._new_descriptor(handle, parent))
-            st = self.mdib.data_model.mk_state_container(tr.get_descriptor(handle)) if False else None
+            self._add(tr, handle, parent)
         self.created.append((handle, parent))
         return [handle]
 
@@ -158,7 +165,7 @@ class History:
         handles = ['verif_sib_%d_%d' % (self.counter, i) for i in range(self.rnd.randint(2, 3))]
         with self.mdib.descriptor_transaction() as tr:
             for h in handles:
-                tr.add_descriptor(self._new_descriptor(h, parent))
+                self._add(tr, h, parent)
         self.created.extend((h, parent) for h in handles)
         return handles
 
@@ -192,6 +199,67 @@ class History:
             st.ActivationState = self.rnd.choice(list(pm_types.ComponentActivation))
         return [a, b_]
 
+    # -- entity interface --------------------------------------------------------------------------------------
+    def do_entity_state(self):
+        h = self.rnd.choice(mt.metric_handles(self.mdib))
+        ent = self.mdib.entities.by_handle(h)
+        ent.state.ActivationState = self.rnd.choice(list(pm_types.ComponentActivation))
+        with self.mdib.metric_state_transaction() as tr:
+            tr.write_entity(ent)
+        return [h]
+
+    def do_entity_context(self):
+        descr = [d for d in self.mdib.descriptions.objects if d.NODETYPE == pm.PatientContextDescriptor]
+        if not descr:
+            return self.do_entity_state()
+        d = self.rnd.choice(descr)
+        ent = self.mdib.entities.by_handle(d.Handle)
+        if ent.states and self.rnd.random() < 0.6:
+            h = self.rnd.choice(sorted(ent.states))
+            ent.states[h].CoreData.Familyname = 'F%d' % self.counter
+        else:
+            st = ent.new_state()
+            st.CoreData.Givenname = 'E%d' % self.counter
+            h = st.Handle
+        with self.mdib.context_state_transaction() as tr:
+            tr.write_entity(ent, [h])
+        return [d.Handle, h]
+
+    def do_entity_descriptor(self):
+        cands = sorted(d.Handle for d in self.mdib.descriptions.objects if d.NODETYPE == pm.NumericMetricDescriptor)
+        h = self.rnd.choice(cands)
+        ent = self.mdib.entities.by_handle(h)
+        ent.descriptor.DeterminationPeriod = self.rnd.randrange(1, 900) / 10
+        ent.state.ActivationState = self.rnd.choice(list(pm_types.ComponentActivation))
+        with self.mdib.descriptor_transaction() as tr:
+            tr.write_entity(ent)
+        return [h]
+
+    def do_stale_entity(self):
+        """An entity read BEFORE its descriptor is updated is written afterwards (single state or context state)."""
+        ctx = [d for d in self.mdib.descriptions.objects if d.NODETYPE == pm.PatientContextDescriptor
+               and self.mdib.context_states.descriptor_handle.get(d.Handle)]
+        self._stale_calls = getattr(self, '_stale_calls', 0) + 1
+        use_ctx = bool(ctx) and self._stale_calls % 2 == 1      # alternate: context state / single state
+        if use_ctx:
+            d = self.rnd.choice(ctx)
+            h = d.Handle
+        else:
+            h = self.rnd.choice(sorted(x.Handle for x in self.mdib.descriptions.objects if x.NODETYPE == pm.NumericMetricDescriptor))
+        ent = self.mdib.entities.by_handle(h)
+        with self.mdib.descriptor_transaction() as tr:
+            tr.get_descriptor(h).SafetyClassification = self.rnd.choice(list(pm_types.SafetyClassification))
+        if use_ctx:
+            sh = sorted(ent.states)[0]
+            ent.states[sh].CoreData.Birthname = 'B%d' % self.counter
+            with self.mdib.context_state_transaction() as tr:
+                tr.write_entity(ent, [sh])
+        else:
+            ent.state.LifeTimePeriod = float(self.counter)
+            with self.mdib.metric_state_transaction() as tr:
+                tr.write_entity(ent)
+        return [h]
+
     def do_descr_delete(self):
         if not self.created:
             return self.do_descr_create()
@@ -206,6 +274,6 @@ class History:
             return self.do_descr_delete()
         handle, parent = self.deleted.pop(self.rnd.randrange(len(self.deleted)))
         with self.mdib.descriptor_transaction() as tr:
-            tr.add_descriptor(self._new_descriptor(handle, parent))
+            self._add(tr, handle, parent)
         self.created.append((handle, parent))
         return [handle]
